@@ -22,6 +22,7 @@ _PyV.declare('exc', ('ecls', z3.IntSort()), ('eid', z3.IntSort()))   # exception
 _PyV.declare('case', ('clabel', _PyV), ('cnode', _PyV))            # types.CaseResult
 _PyV.declare('opq', ('oid', z3.IntSort()))           # opaque user value
 _PyV.declare('ref', ('rid', z3.IntSort()))           # reference to a heap object / class
+_PyV.declare('task', ('tid', z3.IntSort()))          # asyncio.Task (state lives in the world object)
 PyV = _PyV.create()
 
 NONE = PyV.none
@@ -410,3 +411,44 @@ def as_z3(b):
     if isinstance(b, SymB):
         return b.t
     return b
+
+
+_BAD_PATTERN_KINDS = None
+
+
+def _pattern_ok(p, _seen=None):
+    global _BAD_PATTERN_KINDS
+    if _BAD_PATTERN_KINDS is None:
+        _BAD_PATTERN_KINDS = {z3.Z3_OP_AND, z3.Z3_OP_OR, z3.Z3_OP_NOT, z3.Z3_OP_ITE, z3.Z3_OP_EQ, z3.Z3_OP_IMPLIES,
+                              z3.Z3_OP_DISTINCT, z3.Z3_OP_LE, z3.Z3_OP_GE, z3.Z3_OP_LT, z3.Z3_OP_GT, z3.Z3_OP_IFF}
+    if isinstance(p, z3.PatternRef) or (z3.is_app(p) and p.decl().name() == 'pattern'):
+        return all(_pattern_ok(c) for c in p.children())
+    if z3.is_quantifier(p):
+        return False
+    if z3.is_app(p):
+        if p.decl().kind() in _BAD_PATTERN_KINDS:
+            return False
+        return all(_pattern_ok(c) for c in p.children())
+    return True
+
+
+def FA(vs, body, patterns=None):
+    """ForAll with triggers; inadmissible triggers (boolean structure, arithmetic relations, terms without the
+    bound variable) are dropped and z3 infers its own"""
+    pats = []
+    for p in patterns or ():
+        try:
+            if isinstance(p, z3.ExprRef) and not isinstance(p, z3.PatternRef):
+                if not _pattern_ok(p):
+                    continue
+            elif not all(_pattern_ok(p.arg(i)) for i in range(p.num_args())):
+                continue
+            pats.append(p)
+        except Exception:
+            continue
+    if pats:
+        try:
+            return z3.ForAll(vs, body, patterns=pats)
+        except z3.Z3Exception:
+            pass
+    return z3.ForAll(vs, body)
